@@ -410,6 +410,13 @@ Definition lc01_ok (c : lscenario * obs) : bool :=
   && forallb (fun op => negb (needs_ack op) || mem (uop_uid op) (o_acked o)) (label_submits (ls_labels sc))
   && (o_retryq o =? 0) && (o_taskq o =? 0).
 
+(* C08 on a fine-grained schedule that ends idle on a fault-free connection: the broker's table is the net
+   effect of the application's calls *)
+Definition lc08_ok (c : lscenario * obs) : bool :=
+  let '(sc, o) := c in
+  negb (o_stuck o) && negb (o_hung o)
+  && subs_equiv (o_subs o) (net_effect (label_submits (ls_labels sc))).
+
 Definition lfailing (p : lscenario * obs -> bool) (cs : list (lscenario * obs)) : list nat :=
   indices_where (fun c => negb (p c)) cs.
 
